@@ -460,6 +460,14 @@ impl LdapConnAsync {
 
     #[cfg(unix)]
     async fn new_unix(url: &Url, settings: LdapConnSettings) -> Result<(Self, Ldap)> {
+        // TLS can't be layered over a Unix domain socket here; handing back a cleartext
+        // connection when StartTLS has been asked for would be a silent downgrade.
+        if settings.starttls() {
+            return Err(LdapError::from(io::Error::new(
+                io::ErrorKind::Unsupported,
+                "StartTLS is not supported over Unix domain sockets",
+            )));
+        }
         let stream = match settings.std_stream {
             None => {
                 let path = url.host_str().unwrap_or("");
